@@ -336,11 +336,17 @@ def check_case(t, cid, inp, obs, exp, broke):
 
 RULE_TEXT = ("grammar-directed Elk regex sources (<= 12 nodes: literals incl. case-fold and whitespace specials, all escape forms, . anchors, "
              "\\d\\w\\s\\h\\v and negations at top level / in classes / in negated classes, \\p, POSIX classes, ranges, groups (capturing, "
-             "non-capturing, 3 named forms), flag groups incl. flag-only groups in concatenations and alternatives, all quantifier forms and lazy "
-             "variants) x all 64 flag sets (weighted to few flags), 1/3 with x and sprinkled whitespace / # comments (some containing | ( * #); every "
-             "4th case is a char-level mutation (delete/insert/duplicate) of such a source; corpus first. Go's own parser output is walked into the "
-             "model's tree; compared: emitted text exactly (model transpile_text vs regex.Transpile), and for global-x patterns Transpile(src,f) = "
-             "Transpile(strip_x(src), f-x); non-trivial = parsed and transpiled without error, distinct by (flags, source)")
+             "non-capturing, 3 named forms), flag groups - bare `(?..)` in concatenations and alternatives and scoped `(?..:..)`, each SETTING and/or "
+             "UNSETTING any subset of i m s U x a (x weighted up; `(?-x)`, `(?x-x)`, `(?i-x:..)` ...), 1/6 of the patterns flag-group-heavy - all "
+             "quantifier forms and lazy variants) x all 64 flag sets (weighted to few flags), 1/3 with x on the literal. The generator tracks the x "
+             "state the text prescribes: where x is on it sprinkles whitespace / # comments (some containing | ( * #); where x has been switched OFF "
+             "(after `(?-x)`, inside `(?-x:..)`, before a later `(?x)`) it writes the same text, which is then literal; after every flag group, at the "
+             "start of a scoped group's body and after its end it writes `#`, whitespace, `#..\\n` probes whatever the state is. Every 4th case is a "
+             "char-level mutation (delete/insert/duplicate) of such a source; corpus first. Go's own parser output is walked into the model's tree; "
+             "compared: emitted text exactly (model transpile_text vs regex.Transpile), and for every pattern with x on the literal or in a flag "
+             "group the direct oracle Transpile(src,f) = Transpile(xstrip(src), f-x), xstrip = a source-level scanner that follows the x state through "
+             "bare and scoped flag groups and removes comments and whitespace only where x is on; non-trivial = parsed and transpiled without error, "
+             "distinct by (flags, source)")
 RULE_MATCH = ("cases of c21.text whose emitted text Go compiles and equals the model's: 6-10 subjects (<= 6 runes: the empty string, samples "
               "drawn by walking the tree - class members, range ends and neighbours, case-fold orbit members - their mutations, random picks from the "
               "special alphabet incl. \\n); regexp.MatchString vs matches_re2 on the emitted term (validates the Go-semantics assumption) and vs "
@@ -356,11 +362,18 @@ def run(ctx):
         "transformer as the Elk tree, hence accepts exactly the same subjects (C21_denotation, C21_transpile_sound; all node kinds, the "
         "three class modes, flags i m s U a with scoping); flags set in a group never leak (C21_flag_scoping, C21_flag_groups); "
         "+ and * on regexes denote composition and iteration (C21_concat, C21_repeat). C21_extended_refuted: with flag x the faithful "
-        "model turns `a # x|y\\nb` into `a|yb`; C21_extended_partial: on comment-free trees (no `#` outside classes, no (?x) groups) x-mode output = output for the whitespace-stripped tree. NOT PROVED, TESTED ONLY: (a) that the Go transpiler IS the model - stream c21.text "
-        "compares the emitted text exactly, on trees returned by Go's own regex parser; (b) that Go's regexp reads the printed text as "
-        "the structured term and implements the assumed semantics m2, and that the compiled matcher accepts what the Elk tree denotes - "
-        "stream c21.match; (c) everything about extended mode (x): text comparison plus the direct oracle "
-        "Transpile(src, x) == Transpile(strip_x(src)) on the implementation's own outputs. Unicode tables, fold orbits and POSIX "
+        "model turns `a # x|y\\nb` into `a|yb`. Extended mode, what holds: C21_extended_partial (global x, no flag group mentioning x, no `#`) and, "
+        "second pass, C21_extended_flags_partial / C21_extended_flags_sound: for EVERY tree and flag set, with x switched on and off by the "
+        "literal and by bare `(?x)` `(?-x)` and scoped `(?x:..)` `(?-x:..)` groups in any nesting, if no `#` character node stands where x is on "
+        "(a `#` where the text switched x off is a literal and allowed: `a(?-x)#b`), Transpile emits exactly the text of the tree with the "
+        "whitespace of the x-on stretches removed and x erased from all flag groups, transpiled without x - and that tree is in the scope of "
+        "C21_transpile_sound. Comments themselves (a `#` where x is on) are still covered by no theorem. NOT PROVED, TESTED ONLY: (a) that the Go "
+        "transpiler IS the model - stream c21.text compares the emitted text exactly, on trees returned by Go's own regex parser, including "
+        "generated bare/scoped flag groups that set and unset every flag followed by `#`, whitespace and comments; (b) that Go's regexp reads the "
+        "printed text as the structured term and implements the assumed semantics m2, and that the compiled matcher accepts what the Elk tree "
+        "denotes - stream c21.match; (c) comments and the source-level reading of extended mode: text comparison plus the direct oracle "
+        "Transpile(src, f) == Transpile(xstrip(src), f - x) on the implementation's own outputs, where xstrip (harness, independent of lexer, parser "
+        "and transpiler) follows the x state through the flag groups of the source text. Unicode tables, fold orbits and POSIX "
         "tables are oracles instantiated per case from the live Go packages. The model mirrors the code AFTER fixes/C21-global-flags.patch "
         "and fixes/C21-empty-split-class.patch; on a tree without them the check reports those two defects.")
     ctx.trusted_base += [
@@ -369,7 +382,8 @@ def run(ctx):
         "the runes of the subjects and their orbit members",
         "harness AST walker (harness/cmd/c21): the tree the model sees is the one regex/parser returned, serialised node by node; regex/lexer and regex/parser "
         "themselves are NOT modelled",
-        "second oracle for extended mode: strip_x in harness/cmd/c21 (comments and unescaped whitespace outside classes removed from the source)",
+        "second oracle for extended mode: xScan/xStrip in harness/cmd/c21 (follows x through bare and scoped flag groups of the source text; where x is on, "
+        "comments and unescaped whitespace outside classes, escapes, \\Q..\\E and (?#..) are removed; its reading of where a class ends is Go's, not the Elk parser's)",
     ]
     ctx.run_proof_gate()
     h = vlib.build_harness("c21")
